@@ -178,7 +178,7 @@ class Spec(SeqSpec):
         self.part = part
         if part == 'a':
             self.depth = 3 if tier == 'quick' else 4
-            self.max_variants = 1 if tier == 'quick' else 2
+            self.max_variants = 1
         else:
             self.depth = 2 if tier == 'quick' else 3
             self.max_variants = 0 if tier == 'quick' else 1
@@ -187,7 +187,8 @@ class Spec(SeqSpec):
     def roots(self):
         if self.tier == 'quick' or self.part == 'b':
             return [('empty', {}, [])] + ([('mixed-holes', {}, ROOT_PREFIXES['mixed-holes'])] if self.part == 'b' and self.tier != 'quick' else [])
-        return [(n, {}, p) for n, p in ROOT_PREFIXES.items()]
+        shallow = {'depth': 3, 'max_variants': 2}
+        return [('empty', {}, [])] + [(n + '-d3v2', {}, p, shallow) for n, p in ROOT_PREFIXES.items() if n != 'empty']
 
     def core_ops(self, root_name):
         if self.part == 'b':
@@ -254,4 +255,6 @@ def run(tier, report):
 def replay(case):
     from ..seqx import replay_history
     spec = Spec('thorough', 'b')
+    from .c02 import all_roots
+    spec.roots = all_roots
     return [x for x in replay_history(spec, case['root'], [_tuplify(o) for o in case['history']]) if x[1] != '__stats__']
